@@ -36,7 +36,8 @@ ANCHORS = ['cli:UpdateCommand.__call__', 'verify:update_entry_for_path',
            'recursiveloader:ManifestRecursiveLoader.set_timestamp']
 REQUIRED = ['cli:UpdateCommand.__call__', 'rounds_compared', 'timestamps_checked',
             'inject_runs', 'inject_right_after_read', 'multi_tree_incremental_runs',
-            'tz:XXX8', 'tz:XXX-8', 'tz:CET-1CEST,M3.5.0,M10.5.0/3']
+            'tz:XXX8', 'tz:XXX-8', 'tz:CET-1CEST,M3.5.0,M10.5.0/3',
+            'dedup_histories', 'mid_manifests_dropped']
 ASSUMPTIONS = ['timezones are sampled (POSIX TZ strings without DST)',
                'the system clock does not step during a run']
 
@@ -58,6 +59,8 @@ def units(tier, seed):
         u.append({'k': 'inject', 'i': i})
     for i in range(10 if tier == 'quick' else 60):
         u.append({'k': 'multi', 'i': i})
+    for i in range(6 if tier == 'quick' else 60):
+        u.append({'k': 'dedup', 'i': i})
     return u
 
 
@@ -299,6 +302,7 @@ def _apply_ops(rootA, rootB, ops, tprev):
                             cands.append((os.path.dirname(rel), os.path.basename(rel), e))
             if not cands:
                 continue
+            cands.sort(key=lambda c: (c[0], c[1], c[2]['path']))
             parent, sub, e = cands[op['pick'] % len(cands)]
             bogus = dict(e, path=sub + '/' + e['path'],
                          sums={h: ('0' * len(v)) for h, v in e['sums'].items()})
@@ -574,6 +578,48 @@ def run_hist(u, ctx):
             ctx.sample(case, 'hist')
 
 
+def run_dedup(u, ctx):
+    """Histories shaped so that the mid-Manifest drop of _apply_ops always has an
+    object: d0 (no Manifest) lies between the top and the registered d0/d1/Manifest;
+    the dropped d0/Manifest lists d0/d1/f0 (or f1) with the right size, the same hash
+    names and wrong values, the file itself stays untouched and older than the
+    TIMESTAMP, and (mostly) a sibling covered by the same sub-Manifest is modified."""
+    for j in range(4):
+        rng = common.rng_for(ctx.seed, ID, 'dedup', u['i'], j)
+        nodes = [{'p': 'd0', 't': 'd'}, {'p': 'd0/d1', 't': 'd'},
+                 {'p': 'd0/d1/d2', 't': 'd'}]
+        for p in ('d0/d1/f0', 'd0/d1/f1', 'd0/d1/d2/g0', 'd0/h0', 't0'):
+            nodes.append({'p': p, 't': 'f', 'c': {'r': [rng.randrange(1, 1 << 30) * 6 + 1,
+                                                        rng.choice([1, 10, 100, 5000])]}})
+        which = rng.randrange(2)            # f0 or f1 gets the bogus twin
+        ops = [{'kind': 'add-subtree', 'pick': 6 + which, 'seed': rng.randrange(1 << 30),
+                'when': rng.choice(['older', '+1s', 'now', '+1h', 'equal'])}]
+        if rng.random() < 0.75:
+            # files sorted: d0/d1/d2/g0, d0/d1/f0, d0/d1/f1, d0/h0, t0
+            ops.append({'kind': rng.choice(['same', 'other']), 'pick': 2 - which,
+                        'seed': rng.randrange(1 << 30),
+                        'when': rng.choice(['+1s', '+1h', 'now', '+10ms'])})
+        if rng.random() < 0.5:
+            ops.reverse()
+        rounds = [ops]
+        if rng.random() < 0.4:
+            rounds.append(gen_round(rng, rng.randint(1, 3)))
+        case = {'kind': 'hist', 'tz': TZS[(u['i'] * 4 + j) % len(TZS)],
+                # (the previous TIMESTAMP is moved to a fixed date and every file made
+                # older than it: with the real clock the files of a tree created a
+                # moment ago are usually newer than the whole-second TIMESTAMP)
+                'tree': {'nodes': nodes}, 'future_ts': 0,
+                'past_ts': rng.choice(['2026-01-15T12:00:00Z', '2026-07-15T12:00:00Z']),
+                'use_t': rng.random() < 0.3, 'presub': True,
+                'hashes': sorted(rng.sample(mtext.supported_hashes(), rng.randint(1, 2))),
+                'rounds': rounds}
+        ctx.count('dedup_histories')
+        with common.Scratch('vf-c11-') as d:
+            run_history(ctx, d, case)
+        if j == 0:
+            ctx.sample(case, 'dedup')
+
+
 def run_inject_case(ctx, case):
     """Modify file #k right after it was hashed during a running update."""
     tz = case['tz']
@@ -747,7 +793,8 @@ def run_multi(u, ctx):
 
 
 def run_unit(u, ctx):
-    {'hist': run_hist, 'inject': run_inject, 'multi': run_multi}[u['k']](u, ctx)
+    {'hist': run_hist, 'inject': run_inject, 'multi': run_multi,
+     'dedup': run_dedup}[u['k']](u, ctx)
 
 
 def replay(case, ctx):
